@@ -1340,6 +1340,26 @@ def arcsinh(x):
 
 
 @_elementwise
+def arccosh(x):
+    if isinstance(x, Dual):
+        a = arccosh(x.v)
+        return Dual(a, x.d / sinh(a))
+    if not isinstance(x, SNum):
+        return math.acosh(x)
+    run = cur()
+    ex = real_expr(x)
+    run.safety("arccosh", ex >= 1)
+    h = run.fresh("acosh")
+    ch, sh = coshsinh(h)
+    facts = [ch == ex, h >= 0]
+    run.add_def(h, *facts)
+    run.add_def(ch, *facts)
+    run.add_def(sh, *facts)
+    run.axioms_used.add("arccosh(x)=h >= 0 with cosh h = x, x>=1")
+    return SReal(h)
+
+
+@_elementwise
 def arctanh(x):
     if isinstance(x, Dual):
         return x.arctanh()
